@@ -220,6 +220,19 @@ Section OrchProofs.
   Lemma errors_surface_by_source q : swallows q = false.
   Proof. unfold swallows. destruct (q_worker_swallows_errors q); reflexivity. Qed.
 
+  Lemma parent_unrestricted_by_source q : parent_restricts q = false.
+  Proof. unfold parent_restricts. destruct (q_parent_evidence_raw_path q); reflexivity. Qed.
+
+  (* 2''. MAIN for the faithful model, no side condition: the repaired source gathers the evidence in the parent, decides
+          exclusion there on the same path expression as lint_file, and lets configuration errors surface (three facts
+          read from the generated layer), so for EVERY quirk vector parallel = sequential *)
+  Theorem par_equals_seq_source q mw cpu sched files :
+    Permutation sched (seq 0 (List.length files)) ->
+    out_equiv (par_run q mw cpu sched files) (seq_run files).
+  Proof.
+    apply par_equals_seq; [apply crossfile_kept_by_source|apply errors_surface_by_source|left; apply parent_unrestricted_by_source].
+  Qed.
+
   (* 2'. MAIN for the faithful model: no hypothesis on the cross-file flag or the error flag any more.  What
          remains is the residual defect: the parent's evidence loop decides exclusion on the raw path. *)
   Theorem par_equals_seq_faithful q mw cpu sched files :
@@ -264,7 +277,8 @@ Section OrchProofs.
         apply Permutation_app_tail, Permutation_concat, apply_sched_perm. now rewrite (mapM_length _ _ _ M).
   Qed.
 
-  (* 4. the exact characterisation for the faithful vector: when the evidence loop restricts itself, the
+  (* 4. (about a source whose evidence loop decides exclusion on another path expression than lint_file; kept for
+        the reverting patch) when the evidence loop restricts itself, the
         parallel run agrees with the sequential run iff the sequential fallback was taken, or some file raises
         (both raise), or the report over the files the loop visits is the report over all files *)
   Theorem par_restricted_equals_seq_iff q mw cpu sched files :
